@@ -199,6 +199,19 @@ class Interp:
         self.loop_pending: List[list] = []
         self.inlined_envs: List[tuple] = []
 
+    def _constant_call(self, target: Function, bound) -> bool:
+        """a small plain function of the units / enum tables called on
+        constants only (is_convertible(Unit.a, Unit.b), scale_factor(..)):
+        evaluated like the table lookup it stands for"""
+        if not self.auto_inline or target.cls is not None or not bound or \
+                target.module.name not in ("evo.core.units",):
+            return False
+        if target.name in mentioned_names():
+            return False
+        return all(self.unname(v).op in ("const", "enum")
+                   for v in bound.values()) and \
+            len(list(ast.walk(target.node))) < 200
+
     def _should_inline(self, target: Function) -> bool:
         if self._explicit_inline(target):
             return True
@@ -1456,6 +1469,14 @@ class Interp:
                 all(x.op in ("const", "enum") for x in ru.args):
             isin = any(x == lu for x in ru.args)
             return const(isin if op == "In" else not isin)
+        if op in ("In", "NotIn") and ru.op == "dict":
+            # key membership in a dict display (merged displays included)
+            keys = _dict_keys(ru, self.unname)
+            if keys is not None and _closed(lu, self.unname) and all(
+                    _closed(k, self.unname) for k in keys):
+                key = _canon(lu, self.unname)
+                isin = any(_canon(k, self.unname) == key for k in keys)
+                return const(isin if op == "In" else not isin)
         if op in ("In", "NotIn"):
             # membership of a closed value (tuples of constants / enum
             # members) in a completely known collection
@@ -1764,7 +1785,8 @@ class Interp:
             ev.data["result"] = r
             ev.data["inlined"] = True
             return r
-        if target is not None and self.inline(target) and \
+        if target is not None and (self.inline(target) or
+                                   self._constant_call(target, bound)) and \
                 frame.depth < self.max_depth and \
                 target.qualname not in self.stack:
             r = self.inline_call(target, bound, frame, live, node,
@@ -1954,6 +1976,23 @@ def _plain_fields(fmt_str: str) -> Optional[List[str]]:
     if any("{" in p or "}" in p for p in pieces):
         return None
     return pieces
+
+
+def _dict_keys(d: T, unname=lambda v: v) -> Optional[List[T]]:
+    """keys of a dict display, through {**a, **b} merges of displays"""
+    d = unname(d)
+    if d.op != "dict":
+        return None
+    out: List[T] = []
+    for k, v in d.args:
+        if isinstance(k, T) and k.op == "star":
+            inner = _dict_keys(v, unname)
+            if inner is None:
+                return None
+            out += inner
+        else:
+            out.append(k)
+    return out
 
 
 def _closed(t: T, unname=lambda v: v) -> bool:
